@@ -147,6 +147,20 @@ IntersectD(A, B) == FirstOfBuckets(SelectSeq(A, LAMBDA r : InSome(r, B)))
 ExceptAll(A, B) == SelectSeq(A, LAMBDA r : ~InSome(r, B))
 IntersectAll(A, B) == SelectSeq(A, LAMBDA r : InSome(r, B))
 
+-----------------------------------------------------------------------------
+(* 4b. Recursive common table expression (C03), as the manual defines it: the base query's rows are the first  *)
+(* temporary view; the recursive query is run on the temporary view and its result REPLACES the view, until it  *)
+(* is empty; all result sets are combined by UNION [ALL].  Instance: edges e(src, dst) over small integers      *)
+(* (-1 = NULL, which joins nothing), rows <<node, depth>>:                                                       *)
+(*   base  SELECT dst, 1 FROM e WHERE src = k0       step  SELECT e.dst, r.d + 1 FROM r JOIN e ON e.src = r.n   *)
+RecBase(E, k0, d0) == LET m == SelectSeq(E, LAMBDA x : x[1] = k0 /\ x[1] # -1) IN [i \in 1..Len(m) |-> <<m[i][2], d0>>]
+RecStep(R, E, inc) == Concat([i \in 1..Len(R) |->
+                         LET m == SelectSeq(E, LAMBDA x : x[1] = R[i][1] /\ x[1] # -1) IN [j \in 1..Len(m) |-> <<m[j][2], R[i][2] + inc>>]])
+RECURSIVE RecRounds(_, _, _, _)
+RecRounds(R, E, inc, fuel) == IF R = <<>> \/ fuel = 0 THEN <<>> ELSE R \o RecRounds(RecStep(R, E, inc), E, inc, fuel - 1)
+\* UNION ALL: every row of every round; UNION: each distinct row once
+RecResultAll(E, k0, depth) == RecRounds(RecBase(E, k0, IF depth THEN 1 ELSE 0), E, IF depth THEN 1 ELSE 0, 12)
+
 \* aggregates over the cells of one bucket (integers and halves only; NULLs are skipped)
 NumCells(cs) == SelectSeq(cs, LAMBDA c : ~c.n /\ c.hasF /\ c.fk = "num")
 RECURSIVE Sum2(_)
